@@ -32,6 +32,24 @@ Besides the single calls on fresh objects there are
   wide sets   tight lattice clusters 10^5 apart (chamfered cube corners, random clusters): hull
               faces of area ~1 next to faces of area ~10^10; TLC evaluates the orientation
               determinants as polynomials in L = 10^5 (kind "hullw").
+
+Audit extension (the quantifier names "widely scaled", "translated far", "flat-ish", "random" clouds
+and "a geometry" in general; the families above stop at 2^10, 10^4, two lattice layers, 10 points
+and PointCloud / Trimesh).  Every placement is q[a] = (p[a] + off[a]) * 2^sce[a] (exact):
+  magnitudes  family mag_*: a common scale 2^-26 .. 2^-16 and 2^20 .. 2^60, offsets 2^20 .. 2^30
+              lattice steps, both together; all kinds, judged by the unchanged clauses.
+  shapes      family shape_*: one or two axes thinner by 2^-8 .. 2^-24 (flat-ish, needle-like), mixed
+              exponents: hull and aabb exactly (affine invariants), the oriented box in the normalised
+              form "obbn" (apply_obb: rigid matrix, moved vertices inside the reported extents, centred).
+  variants    every fourth full item: the same calls through other containers (list, int64, float32,
+              Fortran order, strided view, PointCloud / hull mesh as the argument) and options
+              (qhull_options None / str / QhullOptions / QJ, repair=False, oriented_bounds ordered /
+              angle_digits / normal, apply_obb(**kwargs), minimum_cylinder sample_count / angle_tol).
+  larger sets family big_*: 12..64 points / mesh vertices of {0..7}^3 (random, full blocks, cospherical
+              shells, two layers, clusters, non-convex voxel surfaces): kinds hullb, aabb, obb, ballc, cyl.
+  objects     family object_*: Scene (two or three placed parts under lattice symmetries), Box and
+              Extrusion primitives (Extrusion overrides bounding_box_oriented): hull, aabb, obb, sphere,
+              cyl, bounding_primitive of the object itself.
 """
 import itertools
 import json
@@ -1356,7 +1374,7 @@ def work_items(tier):
                "big_clusters": 8 * ma, "big_voxel_mesh": 12 * ma}
     for fam, P, F in big_families(rs, bcounts):
         for name, off, sce in placements(rs, 3, 3 if big else 1):
-            put(fam, 3, P, F, name, off, sce, grid=7, cyl=(len(items) % 4 == 0), sane=False)
+            put(fam, 3, P, F, name, off, sce, grid=7, cyl=(len(items) % 3 == 0), sane=False)
         base += 1
     # ---- other geometry classes
     for fam, spec, pts in object_items(rs, {"scene": 40 * ma, "box": 10 * ma, "extrusion": 20 * ma}):
@@ -1420,7 +1438,7 @@ def main(argv):
         raise MachineryError("too few inputs enumerated")
     states = total = nrej = 0
     wall = 0.0
-    fam, kinds, apis, places, notes, stats, groups_seen = {}, {}, {}, {}, {}, {}, {}
+    fam, kinds, apis, places, notes, stats, groups_seen, rejected_where = {}, {}, {}, {}, {}, {}, {}, {}
     samples = []
     bump = lambda d, k, n=1: d.__setitem__(k, d.get(k, 0) + n)
     round_size = 12000 if tier == "thorough" else 4000
@@ -1493,6 +1511,7 @@ def main(argv):
             if c["kind"] == "sphere" and name.startswith("sphere_not_minimal") \
                     and name.rsplit("_", 1)[-1] in ("1", "2", "3")[:c["dim"]]:
                 dev = DEV_SPHERE          # fewer than dim + 1 inputs on the boundary of the minimal ball
+            bump(rejected_where, family_group(it) + ":" + it["place"] + (":" + dev if dev else ""))
             V.violation(clause, detail_of(c, it), dev)
         if len(samples) < 4:
             for kind in ("hull", "sphere", "obb", "hullw"):
@@ -1539,6 +1558,7 @@ def main(argv):
         "exercised": stats,
         "sphere_records_accepted_by_tlc": notes,
         "rejected": nrej,
+        "rejected_per_family_group_and_placement": rejected_where,
         "exhaustive": tier == "thorough",
         "exhaustive_scopes": (["every 4- and 5-point subset of {0,1,2}^3 spanning three dimensions (hull, bounds, oriented "
                                "box, sphere; at the origin, every fourth also far away)"] if tier == "thorough" else []),
@@ -1549,6 +1569,14 @@ def main(argv):
         "inputs are 5..10 points (meshes: 4..12 vertices) of the lattice {0..3}^3 spanning three dimensions, and 3..9 "
         "points of {0..3}^2 spanning the plane; placed at the origin, translated by +-10^4 per axis, scaled by 2^10 "
         "(exact in doubles; results are mapped back by the same exact offset and scale)",
+        "audit families: a common scale 2^-26..2^60 and offsets up to 2^30 lattice steps (all kinds); axes scaled by "
+        "different powers of two, aspect down to 2^-24 (hull and aabb exactly, oriented box in normalised form, sphere "
+        "and cylinder not judged); 12..64 points of {0..7}^3 (hull without the separate extreme-point clause, ball in "
+        "fixed point: containment and tightness only, slack 2.5e-3); scenes and Box / Extrusion primitives made of "
+        "lattice points; the same calls through other containers and options",
+        "sets with lattice steps below 2^-26 are not generated: closer points are one vertex for trimesh (tol.merge = "
+        "1e-8); rejected records whose two thinnest axes scale a unit square to <= tol.zero = 1e-13 carry the deviation "
+        "id MicroscopicFacesBelowTolZero (decided from the placement alone)",
         "a hull vertex counts as an input point when it equals one within 1e-9 after mapping back",
         "sphere: exact comparison when the reported centre is within 1e-7 of fractions of denominator <= 2000, else the "
         "weaker fixed-point form; minimality only for inputs in general position (no five cospherical / four cocircular)",
@@ -1558,8 +1586,9 @@ def main(argv):
         "object after the reads (the moves themselves are property C19); wide sets: coordinates cl * 10^5 + lo, hull "
         "clauses only, signs decided as polynomials in 10^5",
         "not constrained: inputs on hull faces/edges being vertices or not, zero-area hull faces, meshes with "
-        "unreferenced vertices (Trimesh.bounds documents that it ignores them), degenerate inputs (coplanar 3D sets), "
-        "nsphere.fit_nsphere (a least-squares fit, not a bound)",
+        "unreferenced vertices (Trimesh.bounds documents that it ignores them), degenerate inputs (coplanar 3D sets: "
+        "hull and bounding sphere / cylinder raise QhullError, the coplanar fallback of oriented_bounds is not judged), "
+        "nsphere.fit_nsphere (a least-squares fit, not a bound), convex_hull(repair=False) winding and volume",
     ])
 
 
